@@ -138,6 +138,32 @@ def judgeBigint (cfg : Cfg) (op : String) (out : List String) : P Unit := do
       expectToks op [bytesToHex (toBytesBE (bits / 8) a), hx a] out
     | _ => throw s!"unknown op {op}"
 
+/-- direct calls of the assembly routines: same contracts as the portable code (384-bit, modulus q). -/
+def judgeAsm (out : List String) : P Unit := do
+  let fn ← next
+  let m := 2 ^ 384
+  match fn with
+  | "add" => let a ← nextHex; let b ← nextHex; let _ ← next
+             expectToks "asm add" [toString ((a + b) / m), toHex 96 ((a + b) % m)] out
+  | "sub" => let a ← nextHex; let b ← nextHex; let _ ← next
+             expectToks "asm sub" [if a < b then "1" else "0", toHex 96 ((a + m - b) % m)] out
+  | "dbl" => let a ← nextHex; let _ ← next
+             expectToks "asm dbl" [toString ((2 * a) / m), toHex 96 ((2 * a) % m)] out
+  | "fpadd" => let a ← nextHex; let b ← nextHex; let _ ← next
+               if a < q && b < q then expectToks "asm fpadd" [toHex 96 ((a + b) % q)] out
+  | "fpsub" => let a ← nextHex; let b ← nextHex; let _ ← next
+               if a < q && b < q then expectToks "asm fpsub" [toHex 96 ((a + q - b) % q)] out
+  | "fpdbl" => let a ← nextHex; let _ ← next
+               if a < q then expectToks "asm fpdbl" [toHex 96 ((2 * a) % q)] out
+  | "mul" => let _ ← next; let a ← nextHex; let b ← nextHex; expectToks "asm mul" [toHex 192 (a * b)] out
+  | "sqr" => let _ ← next; let a ← nextHex; expectToks "asm sqr" [toHex 192 (a * a)] out
+  | "mred" =>
+    let _ ← next; let t ← nextHex
+    if t < q * m then
+      let rinv : Fq := finInv (Fin.ofNat q m)
+      expectToks "asm mred" [toHex 96 ((Fin.ofNat q t) * rinv).val] out
+  | _ => throw s!"unknown asm routine {fn}"
+
 /-! ### prime fields.  One generic judge, instantiated for Fq and Fr. -/
 
 structure PF where
